@@ -51,7 +51,7 @@ def _post_opts(name, target_size):
 
 
 POSTS = ["none", "slicing", "reconf", "slicing_reconf", "anneal"]
-OBJECTIVES = ["flops", "size", "write", "combo", "limit", "combo-32"]
+OBJECTIVES = ["flops", "size", "write", "combo", "limit", "combo-32", "limit-4"]
 FLAKY = "verif-flaky"
 
 
@@ -344,8 +344,13 @@ def run_case(case):
         if isinstance(raised, HarnessStall):
             problems.append(("search never consumes the completed futures (livelock)", str(raised)))
         elif all_failed and isinstance(raised, KeyError) and raised.args == ("tree",):
-            # every trial failed: there is no tree to return; outside "whenever the search returns"
+            # every trial failed: there is no tree to return.  With a scripted failure or a slicing target (which may be
+            # unreachable: SliceFinder legitimately raises) that is outside "whenever the search returns"; otherwise no
+            # trial has a reason to fail and the search has not returned a tree for a perfectly good query.
             info["all_failed"] = True
+            if not fail and case["post"] in ("none", "reconf", "anneal"):
+                why = _why_trial_fails(case)
+                problems.append((f"every trial failed without a scripted failure ({why})", ""))
             return {"problems": problems, "nontrivial": False, "fired": fired, "info": info}
         else:
             problems.append((f"search raised {type(raised).__name__}({', '.join(map(repr, raised.args))})", ""))
@@ -415,6 +420,8 @@ def run_case(case):
         except Exception as e:  # noqa: BLE001
             problems.append(("objective could not be evaluated on the fresh rebuild", f"{type(e).__name__}: {e}"))
     info["sliced"] = len(sliced)
+    info["post_changed"] = "original_flops" in best and (best["original_flops"], best["original_write"], best["original_size"]) != (
+        best.get("flops"), best.get("write"), best.get("size"))
 
     # ---- 5. winner's params are those of the call that produced it ---------
     fire("winner_params")
@@ -495,13 +502,32 @@ def run_case(case):
     return {"problems": problems, "nontrivial": nontrivial, "fired": fired, "info": info}
 
 
+def _why_trial_fails(case):
+    """Re-run one trial with on_trial_error='raise' to name the hidden error."""
+    from cotengra.hyperoptimizers import hyper
+
+    inputs, output, size_dict = _net_of(case)
+    try:
+        with quiet():
+            seed_globals(5)
+            opt = hyper.HyperOptimizer(methods=list(case["methods"]), minimize=case["minimize"], max_repeats=1, parallel=False,
+                                       optlib="random", on_trial_error="raise", seed=case.get("sseed", 0),
+                                       **copy.deepcopy(_post_opts(case["post"], case.get("target_size", 16))))
+            opt.search(inputs, output, size_dict)
+        return "a single trial with on_trial_error='raise' succeeds"
+    except Exception as e:  # noqa: BLE001
+        return f"{type(e).__name__}: {e}"
+
+
 def _work(case):
     out = run_case(case)
     viol = []
     for check, detail in out["problems"][:2]:
         viol.append((f"C08 {check} :: {_desc(case)}", case, detail))
     key = json.dumps(case, sort_keys=True) if out["nontrivial"] else None
-    return (1, key, viol, out["fired"], out["info"])
+    info = out["info"]
+    info["case"] = _desc(case)
+    return (1, key, viol, out["fired"], info)
 
 
 def replay(case):
@@ -667,6 +693,7 @@ def run_bounded(rep: Report, tier: str) -> None:
     scopes, ms = build_cases(tier)
     stop = False
     nviol = 0
+    n_allfailed = n_sliced = n_changed = 0
     slowest = 0.0
     for name, cases, exhaustive, bound in scopes:
         done = 0
@@ -686,8 +713,14 @@ def run_bounded(rep: Report, tier: str) -> None:
                 for sig, case, detail in viol:
                     if nviol < 5 and rep.violation(sig, {"module": MOD, "case": case, "detail": detail}):
                         nviol += 1
-                if done <= 2:
-                    rep.sample({"case": _desc(cases[0]) if cases else "", "info": info})
+                if done <= 1:
+                    rep.sample(info)
+                if info.get("all_failed"):
+                    n_allfailed += 1
+                if info.get("sliced"):
+                    n_sliced += 1
+                if info.get("post_changed"):
+                    n_changed += 1
                 if time.time() > dl or nviol >= 5:
                     stop = True
                     break
@@ -728,6 +761,9 @@ def run_bounded(rep: Report, tier: str) -> None:
     rep.extra["real_pools_used"] = sorted(set(used))
     rep.extra["real_pools_skipped"] = skipped
     rep.extra["slowest_case_s"] = slowest
+    rep.extra["searches_where_every_trial_failed"] = n_allfailed
+    rep.extra["returned_trees_with_sliced_indices"] = n_sliced
+    rep.extra["winners_changed_by_post_processing"] = n_changed
     rep.extra["hyper_methods_used"] = ms
     rep.explanation += (
         "C08 bounded: real HyperOptimizer(optlib='random', seeded sampler) on rand_equation networks of 5-10 tensors; objectives "
